@@ -1,5 +1,5 @@
 (* P_C15.v — property theorems for C15 only. *)
-From ZT Require Import Base Tree Bytecode BytecodeFacts.
+From ZT Require Import Base Tree Bytecode BytecodeFacts BytecodeAfter.
 
 (* A file is unlinked iff it is an orphaned .pyc/.pyo (no same-named .py FILE beside it) lying directly
    in a directory reached from the test path through directories that are neither ignored nor __pycache__;
@@ -25,3 +25,20 @@ Print Assumptions C15_never_inside_pruned_directories.
 Theorem C15_keep_means_nothing : forall ign tree root, cleanup_root ign true tree root = [].
 Proof. exact keep_means_nothing. Qed.
 Print Assumptions C15_keep_means_nothing.
+
+(* History: in the tree the cleanup leaves behind (after_dir: orphans gone from every walked directory, pruned directories as they
+   were) a second cleanup finds nothing to remove, and the walked directory itself keeps every entry that was not an orphan. *)
+Theorem C15_second_cleanup_removes_nothing : forall ign kids, stale_dir ign (after_dir ign kids) = [].
+Proof. exact second_cleanup_removes_nothing. Qed.
+Print Assumptions C15_second_cleanup_removes_nothing.
+
+Theorem C15_cleanup_keeps_the_rest : forall ign kids f,
+  In (F f) (after_dir ign kids) <-> In (F f) kids /\ ~ orphan kids f.
+Proof. exact after_keeps_the_rest. Qed.
+Print Assumptions C15_cleanup_keeps_the_rest.
+
+(* non-vacuity: a tree with an orphan, a compiled file beside its source, and an orphan in a pruned directory *)
+Example C15_after_example :
+  let t := [F [97;46;112;121;99]%N; F [98;46;112;121]%N; F [98;46;112;121;99]%N; D s_pycache [F [99;46;112;121;99]%N]] in
+  stale_dir [] t = [[[97;46;112;121;99]%N]] /\ after_dir [] t = [F [98;46;112;121]%N; F [98;46;112;121;99]%N; D s_pycache [F [99;46;112;121;99]%N]].
+Proof. vm_compute. split; reflexivity. Qed.
